@@ -140,14 +140,50 @@ theorem script_wellFormed (exp : α → α) (misfit : Nat → V → α) (kern : 
     or has an enabled chain), and every maximal execution ends with empty pipes and exactly the
     stores of the sequential reference run — the result does not depend on how the operating system
     schedules the processes. -/
-theorem tempering_all_interleavings (exp : α → α) (misfit : Nat → V → α) (kern : Nat → Nat → V × α → V × α) (udraw : Nat → Nat → α)
+theorem tempering_all_interleavings (cap : Option Nat) (exp : α → α) (misfit : Nat → V → α) (kern : Nat → Nat → V × α → V × α) (udraw : Nat → Nat → α)
     (n P I : Nat) (sched : Nat → List Nat) (hs : SchedOK sched) (st : Nat → ChainSt V α)
     (osSchedule : List Nat) (u : Sys (ChainSt V α) (TMsg V α))
-    (hu : runSched (initSys (script exp misfit kern udraw n P I sched) st) osSchedule = some u) :
+    (hu : runSched cap (initSys (script exp misfit kern udraw n P I sched) st) osSchedule = some u) :
     osSchedule.length ≤ (canonicalSched (script exp misfit kern udraw n P I sched)).length ∧
-    (u = doneSys (seqRun (script exp misfit kern udraw n P I sched) st) ∨ ∃ i u', stepP u i = some u') ∧
-    ((∀ i, stepP u i = none) → u = doneSys (seqRun (script exp misfit kern udraw n P I sched) st)) :=
-  choreography_all_interleavings _ (script_wellFormed exp misfit kern udraw n P I sched hs) st osSchedule u hu
+    (u = doneSys (seqRun (script exp misfit kern udraw n P I sched) st) ∨ ∃ i u', stepP cap u i = some u') ∧
+    ((∀ i, stepP cap u i = none) → u = doneSys (seqRun (script exp misfit kern udraw n P I sched) st)) :=
+  choreography_all_interleavings cap _ (script_wellFormed exp misfit kern udraw n P I sched hs) st osSchedule u hu
+
+/-! ### why the order of send and receive inside an exchange matters
+
+  `tempering_all_interleavings` holds for **every** pipe capacity because in hmclab's protocol one
+  side of a pair always receives while the other sends. A protocol in which both chains of a pair
+  first send their model and then receive the other's is fine while the models fit into the pipe
+  buffer, and deadlocks as soon as they do not (capacity 0 = a send completes only while the
+  receiver receives). -/
+
+/-- two processes that both send first and receive second -/
+def symmetricSend : Sys Unit Unit :=
+  { prog := fun p => if p = 0 then [Act.send 1 (fun _ => ()), Act.recv 1 (fun s _ => s)]
+                     else if p = 1 then [Act.send 0 (fun _ => ()), Act.recv 0 (fun s _ => s)] else [],
+    store := fun _ => (), chan := fun _ _ => [] }
+
+/-- with room in the pipes the symmetric protocol completes … -/
+theorem symmetric_send_completes_when_buffered :
+    ∃ t, runSched none symmetricSend [0, 1, 0, 1] = some t ∧ ∀ i, t.prog i = [] := by
+  refine ⟨_, rfl, ?_⟩
+  intro i
+  by_cases h0 : i = 0
+  · subst h0; simp [upd]
+  · by_cases h1 : i = 1
+    · subst h1; simp [upd]
+    · simp [upd, h0, h1, symmetricSend]
+
+/-- … and without room it is stuck at once: nobody can move and nobody is finished -/
+theorem symmetric_send_deadlocks :
+    (∀ i, stepP (some 0) symmetricSend i = none) ∧ symmetricSend.prog 0 ≠ [] ∧ symmetricSend.prog 1 ≠ [] := by
+  refine ⟨?_, by simp [symmetricSend], by simp [symmetricSend]⟩
+  intro i
+  by_cases h0 : i = 0
+  · subst h0; simp [stepP, symmetricSend, sendOk, room, headIsRecvFrom]
+  · by_cases h1 : i = 1
+    · subst h1; simp [stepP, symmetricSend, sendOk, room, headIsRecvFrom]
+    · simp [stepP, symmetricSend, h0, h1]
 
 /-! ### the reference run writes exactly `P` columns per chain -/
 
